@@ -2,6 +2,7 @@ import KoordVerif.Common.Proto
 import KoordVerif.Model.C05
 import KoordVerif.Model.C05Prof
 import KoordVerif.Model.C05Sel
+import KoordVerif.Model.C05Ctl
 /-
 Driver for C05.  One case = one history against one reservation cache (harness "cache") or a list of
 independent owner-matching questions (harness "match").  Integer tokens only.
@@ -39,6 +40,9 @@ independent owner-matching questions (harness "match").  Integer tokens only.
                                     one owner label selector (Model/C05Sel.lean): pod labels, matchLabels, matchExpressions
                                     (op 0 In, 1 NotIn, 2 Exists, 3 DoesNotExist, other = unknown operator);
                                     parsed = ParseReservationOwnerMatchers succeeded, matched = the matcher accepts the pod
+  ctl specNs podNs flag uid name kind api nRefs (flag uid name kind api)*nRefs  -> `ctl matched`
+                                    one owner controller reference (Model/C05Ctl.lean) on the pod's ownerReferences; strings 0 = empty,
+                                    flag 0 nil / 1 true / 2 false
   harness "profiles" (Model/C05Prof.lean): P caches, one per scheduler profile
   mnew P
   madd kind valid <robj> k role*                 informer Add delivered in the order role* (0 = global handler, i = profile i)
@@ -149,6 +153,12 @@ def parseSel : List Int → Option (Labels × LabelSel)
       | _ => none
     | _ => none
   | _ => none
+
+def parseCtlRefs : Nat → List Int → Option (List CtlRef)
+  | 0, [] => some []
+  | k+1, f :: u :: n :: kd :: a :: rest =>
+    (parseCtlRefs k rest).map (fun t => { flag := f, uid := u, name := n, kind := kd, api := a } :: t)
+  | _, _ => none
 
 def parseCands : Nat → List Int → Option (List CandIn)
   | 0, [] => some []
@@ -335,6 +345,13 @@ def stepLine (c : Cache) (line : String) : Cache × List String :=
       | some [p] => (c, [s!"sel 1 {b2i (ownerLabelsMatch p pod)}"])
       | _ => (c, ["sel 0 0"])
     | none => bad
+  | "ctl" :: rest =>
+    match ints? rest with
+    | some (sns :: pns :: f :: u :: n :: kd :: a :: k :: vals) =>
+      match parseCtlRefs k.toNat vals with
+      | some refs => (c, [s!"ctl {b2i (matchControllerRef sns pns { flag := f, uid := u, name := n, kind := kd, api := a } refs)}"])
+      | none => bad
+    | _ => bad
   | "chk" :: rest =>
     match ints? rest with
     | some (ig :: pe :: hn :: nm :: ex :: us :: tol :: tb :: af :: k :: vals) =>
